@@ -652,6 +652,9 @@ def c15(work, v, tier):
     tables = [("xfer", dict(Caps=[0], Vals=["nil", "a"], MaxLen=3 if q else 4, Fams=["grow", "transfer"], PushLens=[1, 2],
                             DstCaps=[0, 1, 2, 3] if q else [0, 1, 2, 3, 4, 5], DstOps=["push", "pop", "ronly"], depth=2,
                             walks=300 if q else 20000, wlen=40)),
+              # a destination with a capacity AND a push policy (approving everything): too little room is still refused outright
+              ("xfer-pol", dict(Caps=[0], Vals=["a", "b"], MaxLen=3, Fams=["grow", "transfer"], PushLens=[1, 2],
+                                DstCaps=[2, 4], DstOps=["push", "policy"], depth=2, walks=100, wlen=30)),
               ("xfer-nn", dict(Caps=[0], Vals=["a", "S"], MaxLen=3, Fams=["grow", "transfer"], PushLens=[1],
                                DstCaps=[0, 2], DstOps=["push", "nnest"], depth=2, walks=100, wlen=30))]
     traces = [("rand", dict(traces=200 if q else 2000, len=60, fams=["list", "transfer"], caps="0,1,2,3,5,8", nest=True, nvals=6))]
@@ -973,6 +976,9 @@ def c10(work, v, tier):
     # with a push policy installed: the closure runs inside Push's critical section (one lock acquisition per call)
     insts.append(("g2x1pol", dict(G=2, OpsPer=1, Lens="{0, 1}", Caps="{0, 2}", FAMILY="policy"), 0))
     insts.append(("g2x2pol", dict(G=2, OpsPer=2, Lens="{1}", Caps="{3}", FAMILY="policy"), 10000 if q else 0))
+    # the no-nesting option switched while a Push waits for the lock: what the Push stores is decided INSIDE its critical section
+    insts.append(("g2x1nn", dict(G=2, OpsPer=1, Lens="{0, 1}", Caps="{0}", FAMILY="nnest"), 0))
+    insts.append(("g2x2nn", dict(G=2, OpsPer=2, Lens="{1}", Caps="{0}", FAMILY="nnest"), 5000 if q else 0))
     if not q:
         insts.append(("g2x2core", dict(G=2, OpsPer=2, Lens="{1}", Caps="{0}", FAMILY="core"), 200000))
     for name, c, limit in insts:
